@@ -32,7 +32,7 @@ def dim_labels(rng, kind, allow_empty):
     if k == 'i':
         pool = list(range(0, 7))
     elif k == 'f':
-        pool = [float(x) for x in range(0, 7)] if kind == 'if' else [x / 2.0 for x in range(0, 7)]
+        pool = [x / 2.0 for x in range(0, 13)] if kind == 'if' else [x / 2.0 for x in range(0, 7)]
     else:
         pool = list('abcdefg')
     n = rng.choice([0] if allow_empty and rng.random() < 0.2 else [1, 2, 2, 3, 3, 4])
@@ -51,8 +51,14 @@ def gen_input(rng, kinds, allow_empty, base=None):
             l, k = dim_labels(rng, kinds[d], allow_empty)
         labs.append(l)
         ks.append(k)
-    return {"dims": dims, "labels": labs, "kinds": ks,
-            "values": gen.values(rng, tuple(len(l) for l in labs), rng.choice('ffi'))}
+    sp = {"dims": dims, "labels": labs, "kinds": ks,
+          "values": gen.values(rng, tuple(len(l) for l in labs), rng.choice('ffi'))}
+    if nd and rng.random() < 0.2:
+        # the input is a positional slice of a bigger array whose axis ordering has been queried before
+        q = rng.randrange(nd)
+        if ks[q] != 's' and len(labs[q]) >= 1:
+            sp["derive"] = {"dim": q, "extra": [max(labs[q]) + 10 + rng.randint(0, 3)] if ks[q] == 'i' else [max(labs[q]) + 10.5]}
+    return sp
 
 
 def gen_case(rng):
@@ -108,6 +114,28 @@ def relation(sets):
     return 'overlap'
 
 
+def build_input(sp):
+    """the array described by sp; if sp['derive'] is set it is obtained as big.ix[..., 1:, ...] of an array with one more
+    (larger) label in front, after the ordering of big's axes has been queried - same observable content, other history"""
+    da = __import__("vp.boot", fromlist=["boot"]).boot()
+    dv = sp.get("derive")
+    if not dv:
+        return gen.build(sp)
+    q = dv["dim"]
+    big = dict(sp)
+    big["labels"] = [list(l) for l in sp["labels"]]
+    big["labels"][q] = list(dv["extra"]) + big["labels"][q]
+    v = np.asarray(sp["values"])
+    pad = np.take(v, [0] * len(dv["extra"]), axis=q) * 0 - 7
+    big["values"] = np.concatenate([pad, v], axis=q)
+    big["prime"] = True
+    b = gen.build(big)
+    idx = [slice(None)] * v.ndim
+    idx[q] = slice(len(dv["extra"]), None)
+    r = b.ix[tuple(idx)] if v.ndim > 1 else b.ix[idx[0]]
+    return r
+
+
 def check(case, ctx):
     da = __import__("vp.boot", fromlist=["boot"]).boot()
     inputs = case["inputs"]
@@ -116,11 +144,11 @@ def check(case, ctx):
         if "ds" in inp:
             ds = da.Dataset()
             for k, sp in inp["ds"].items():
-                ds[k] = gen.build(sp)
+                ds[k] = build_input(sp)
             objs.append(ds)
             mods.append({k: model.from_spec(sp) for k, sp in inp["ds"].items()})
         else:
-            objs.append(gen.build(inp))
+            objs.append(build_input(inp))
             mods.append(model.from_spec(inp))
     join, sort, axis = case["join"], case["sort"], case["axis"]
     axs = [input_axes(inp) for inp in inputs]
